@@ -387,7 +387,12 @@ let () =
               | None -> if tape <> [] then begin stop := true; diff := Some (Printf.sprintf "library activity during an operation the model does not know: %s" desc) end
               | Some inp ->
                 (match step mcfg fuel inp tape !st with
-                 | Ok (_, s') -> st := s'
+                 | Ok (_, s') ->
+                   st := s';
+                   if not (host_inv_check s') then begin
+                     stop := true;
+                     diff := Some (Printf.sprintf "host_query invariant (remaining = outstanding queries) violated after: %s" desc)
+                   end
                  | Err e -> stop := true; diff := Some (Printf.sprintf "model stopped with %s at: %s" (string_of_z e) desc)
                  | UB u -> stop := true; diff := Some (Printf.sprintf "model reports %s at: %s" (ub_str u) desc))) segs;
           if not !stop && not (!st).st_destroying then begin
